@@ -470,6 +470,27 @@ Fixpoint mon_started (c : rcase) (evs : list event) (prev script : list rstep) (
   | _, _ => true
   end.
 
+(* The one error event reports the FATAL failure, not an earlier benign
+   cancellation: no error event has been received when the step that triggers the
+   failure (the one right before the script's [SFail]) begins. *)
+Fixpoint fail_pos (steps : list rstep) (n : nat) : option nat :=
+  match steps with
+  | [] => None
+  | SFail :: _ => Some n
+  | _ :: t => fail_pos t (S n)
+  end.
+
+Definition error_not_early (c : rcase) : bool :=
+  has_break (rc_steps c) ||
+  match fail_pos (drop_to_sync (rc_steps c)) 0 with
+  | Some (S k) =>
+      match nth_error (rc_marks c) k with
+      | Some a => Nat.eqb (count_errors (firstn a (rc_events c))) 0
+      | None => true
+      end
+  | _ => true
+  end.
+
 Definition reporter_monitor (c : rcase) : bool :=
   let cfg := rc_cfg c in
   let evs := rc_events c in
@@ -482,7 +503,7 @@ Definition reporter_monitor (c : rcase) : bool :=
     (* a fatal failure happened: exactly one error event is reported and the
        watcher stops by itself, whatever benign cancellations came before; no
        sync event if the failure precedes the sync *)
-    Nat.eqb (count_errors evs) 1 && rc_selfclosed c &&
+    Nat.eqb (count_errors evs) 1 && rc_selfclosed c && error_not_early c &&
     (negb (fail_before_sync (rc_steps c)) || Nat.eqb (count_syncs evs) 0)
   else
     Nat.eqb (count_errors evs) 0 && Nat.eqb (count_syncs evs) 1 &&
